@@ -20,7 +20,7 @@ from ..sexp import Sym, dumps, line as sx
 META = dict(
     text="Lean theorems (PPProofs/Props/C10.lean) prove, for ALL value types, ALL states satisfying PRInv (unique keys, "
          "no empty occurrence list; established by the constructor and kept by every operation: prinv_of_ctor, "
-         "prinv_of_reinit, prinv_step) and ALL finite histories of the 29 modelled operations, that the transcribed "
+         "prinv_of_reinit, prinv_step) and ALL finite histories of the 31 modelled operations, that the transcribed "
          "ParseResults refines a plain list + ordered multimap + list-all set (refines_step, refines_history: same "
          "abstract state and same return value / exception class after every step), full strength on the model; "
          "corollaries list_ops_keep_names (= del_insert_keep_names; del/insert/pop/append/extend/slice-assign never "
@@ -139,11 +139,12 @@ def gen_op(rng, pp, r, attr_ok):
     k = rng.choices(
         ["getint", "getslice", "getname", "getattr", "get", "setint", "setslice", "setname", "delint", "delslice",
          "delname", "pop", "popint", "popname", "insert", "append", "extendlist", "extendpr", "iadd", "clear",
-         "contains", "len", "bool", "iter", "reversed", "keys", "values", "items", "haskeys"],
-        [4, 4, 5, 4, 4, 4, 4, 6, 6, 5, 4, 3, 4, 5, 6, 4, 3, 3, 6, 1, 2, 1, 1, 1, 2, 1, 1, 2, 1])[0]
+         "contains", "len", "bool", "iter", "reversed", "keys", "values", "items", "haskeys", "popbadkw",
+         "setslicescalar"],
+        [4, 4, 5, 4, 4, 4, 4, 6, 6, 5, 4, 3, 4, 5, 6, 4, 3, 3, 6, 1, 2, 1, 1, 1, 2, 1, 1, 2, 1, 1, 1])[0]
     if k in ("getint", "delint"):
         return [k, gen_index(rng, n)]
-    if k in ("getslice", "delslice"):
+    if k in ("getslice", "delslice", "setslicescalar"):
         return [k] + gen_slice(rng, n)
     if k in ("getname", "delname", "contains"):
         return [k, gen_name(rng, keys, strtoks)]
@@ -325,7 +326,7 @@ def run(ctx):
     proof_ok = ctx.proof_leg("PPProofs.Props.C10", THEOREMS)
     maxlen = ctx.budget(12, 40)
     ctx.rule.append(
-        f"histories of length 1..{maxlen} over the 29 operations from start objects = real parse results of "
+        f"histories of length 1..{maxlen} over the 31 operations from start objects = real parse results of "
         f"{len(prlib.grammars(pp))} grammars (names, list-all names, Groups, nested, Dict, int tokens, aslist) | constructor "
         "calls (None/list/str/int toklist x name x asList x modal) | ParseResults(existing, name, ...); arguments hit "
         "negative / out-of-range indices, slices with steps (incl. 0), missing names, defaults, nested values; "
